@@ -72,6 +72,7 @@ TRANSLATORS = [
     ('translate_stream.py', 'StreamTables', 'stream', 'Proofs/StreamSrc.v'),
     ('translate_numfr.py', 'NumFrTables', 'numfr', 'Proofs/NumFrSrc.v'),
     ('translate_err.py', 'ErrTables', 'err', 'Proofs/ErrSrc.v'),
+    ('translate_access.py', 'AccessTables', 'access', 'Proofs/AccessSrc.v'),
 ]
 TRANSLATORS = [t for t in TRANSLATORS if os.path.exists(os.path.join(VERIF, 'tools', t[0]))]
 
